@@ -116,6 +116,38 @@ pub fn run(tier: Tier, seed: u64) -> i32 {
             merge(&mut a, b);
             a
         });
+    // converse clause on real bytes: every box of the canned (ffmpeg-produced) files that the library has a codec for
+    let mut real = 0u64;
+    fn walk(nodes: &[crate::refmp4::parse::Node], file: &[u8], name: &str, real: &mut u64, l: &mut Local) {
+        for n in nodes {
+            let bytes = &file[n.start as usize..n.start as usize + n.size];
+            if let Some(r) = real_box_fixpoint(&n.cc, bytes) {
+                *real += 1;
+                l.evaluations += 1;
+                l.transitions += 3;
+                let cc = String::from_utf8_lossy(&n.cc).into_owned();
+                let case = json!({"engine": "real_box", "file": name, "box": cc, "at": n.start, "input_hex": hex(&bytes[..bytes.len().min(600)])});
+                match r {
+                    Ok(Some(true)) | Ok(None) => {
+                        l.nontrivial += 1;
+                        l.outcome("ok:real_box");
+                    }
+                    Ok(Some(false)) => l.violations.push(Violation::new("C04", "reencoding_is_not_a_fixpoint", case).tag(&cc).tag("real_file")),
+                    Err(e) => l.violations.push(Violation::new("C04", "real_box_decode_or_reencode", case).tag(&cc).obs(json!(e))),
+                }
+            }
+            walk(&n.kids, file, name, real, l);
+        }
+    }
+    for name in ["minimal.mp4", "minimal_init.mp4", "minimal_fragment.m4s", "extended_audio_object_type.mp4", "big_buck_bunny_metadata.m4v"] {
+        let file = crate::e3::canned(name);
+        match crate::refmp4::parse::tree(&file, 0) {
+            Ok(t) => walk(&t, &file, name, &mut real, &mut l),
+            Err(e) => machinery_failure(&format!("reference parser rejects {}: {}", name, e)),
+        }
+    }
+    ev.set("real_boxes_from_canned_files", json!(real));
+
     ev.set("evaluations", json!(l.evaluations));
     ev.set("states", json!(l.evaluations));
     ev.set("transitions", json!(l.transitions));
